@@ -51,10 +51,22 @@ Fixpoint has_at (s : string) : bool :=
   | String c r => orb (Ascii.eqb c "@") (has_at r)
   end.
 
+(* kinds "...@hex" / "...@tet": the same states with the cell DECLARED hexagonal / tetragonal (a library or file
+   state): only the cell length has a handle, ratio and angle are fixed *)
+Fixpoint ends_with (suffix s : string) : bool :=
+  orb (String.eqb s suffix) (match s with EmptyString => false | String _ r => ends_with suffix r end).
+
+Definition length_only_ok (hs : list gen_handle) : bool :=
+  match hs with
+  | hl :: rest => (handle_is hl "/cell/length" 0.01%float None && site_handles_ok rest)%bool
+  | _ => false
+  end.
+
 Definition state_ok (gs : list gen_group) (s : gen_state) : bool :=
   match find_group (gs_cli s) gs, find (fun g => String.eqb (sg_name g) (gs_cli s)) ita with
   | Some g, Some sp =>
-      (handles_ok (gg_family g) (gs_handles s) && (gs_scored s || has_at (gs_kind s))
+      ((if orb (ends_with "@hex" (gs_kind s)) (ends_with "@tet" (gs_kind s)) then length_only_ok (gs_handles s)
+        else handles_ok (gg_family g) (gs_handles s)) && (gs_scored s || has_at (gs_kind s))
        && Nat.eqb (gs_copies s) (sg_order sp))%bool
   | _, _ => false
   end.
@@ -64,6 +76,7 @@ Definition state_ok (gs : list gen_group) (s : gen_state) : bool :=
 Theorem handles_are_declared_ranges : forallb (state_ok gen_groups) gen_bounds = true.
 Proof. vm_compute. reflexivity. Qed.
 
-(* all 7 groups x 5 state kinds were probed: initial, shrunk, and with a side ratio above one *)
-Theorem all_states_probed : length gen_bounds = 105%nat.
+(* all 7 groups x 5 state kinds were probed: initial, shrunk, with a side ratio above one; and 7 x 4 states with the
+   cell declared hexagonal / tetragonal *)
+Theorem all_states_probed : length gen_bounds = 133%nat.
 Proof. vm_compute. reflexivity. Qed.
